@@ -1,138 +1,189 @@
 (* C10 -- Staking pools: shares match stake, pro-rata redemption, rewards reach stakers.
-   Only statements, each closed by [exact] of a lemma from Proofs/Pools.v, and its assumptions.
-   The model (Model/Pools.v) is parametric in the two repair sites ([variant]); which variant the tree
-   implements is read from the source on every run (Gen/C10Cfg.v) and used by the correspondence run.
-   [run v c ops s] executes a history; a failing step leaves the state unchanged (cache discarded). *)
-From Sekai Require Import Base.Prelude Base.Dec Model.Pools Proofs.Pools.
+   Only statements, each closed by [exact] of a lemma from Proofs/Pools.v / Proofs/PoolsTree.v, and its assumptions.
+   The model (Model/Pools.v) is parametric in the repair sites ([variant]); [tree_variant] (Gen/C10Cfg.v) is
+   what the tree implements NOW, read from the source on every run and used by the correspondence run.
+   [run v c ops s] executes a history; a failing step leaves the state unchanged (cache discarded).
+   tree_r0 = the tree before 86992ce/c0fbb8a, tree_r1 = with them, tree_r2 = + the three pending repairs. *)
+From Sekai Require Import Base.Prelude Base.Dec Model.Pools Gen.C10Cfg Proofs.Pools Proofs.PoolsTree.
 
-(* ---- shares match stake: for every history of delegate / undelegate / share transfer / claim / slash /
-   reward allocation / auto-compound / begin- and end-block steps, the bank supply of every share token equals
-   the pool's recorded share total *)
+(* ================= shares match stake: every history, every variant *)
 Theorem C10_share_supply_eq_book :
   forall v c ops s, (forall d, ssup s d = shares s d) -> forall d, ssup (run v c ops s) d = shares (run v c ops s) d.
 Proof. exact share_supply_eq_book. Qed.
 Print Assumptions C10_share_supply_eq_book.
+(* the token registry's supply record (TokenInfo.Supply) of the share tokens: follows only if Undelegate burns
+   through the tokens keeper; REFUTED as the tree is (burn goes to the bank directly) *)
+Theorem C10_registry_supply_eq_book :
+  forall v c ops s, v_burn_registry v = true -> inv_registry s -> inv_registry (run v c ops s).
+Proof. exact registry_supply_eq_book. Qed.
+Print Assumptions C10_registry_supply_eq_book.
+Theorem C10_registry_supply_refuted :
+  let s := run tree_r2 demo_cfg partial_redeem demo_init in ssup s 0 = 1700 /\ shares s 0 = 1700 /\ tsup s 0 = 2000.
+Proof. exact registry_supply_refuted. Qed.
+Print Assumptions C10_registry_supply_refuted.
 
-(* ---- pro-rata redemption.  Full statement: in every reachable state a successful undelegation of stake x burns
-   shares b with x <= stake*b/shares (+1/2).  REFUTED after a slash (GetPoolCoins multiplies by 1-slashed where it
-   must divide): two equal delegators of 100, slash 1/2, the first redeems all 100 remaining stake for 50 shares. *)
+(* ================= pro-rata redemption.  FULL STRENGTH for the pro-rata conversion (redeem rule 1, pending patch):
+   in ANY state (any number of slashes) a successful undelegation of stake x burns b shares with
+   x*shares <= stake*b < x*shares + stake *)
+Theorem C10_redeem_pro_rata :
+  forall v c who amts s s', v_redeem_rule v = 1 -> (forall d, 0 <= shares s d) ->
+  undelegate v c who amts s = Ok s' ->
+  exists pc, redeem_coins v s amts = Ok pc /\ fair s amts pc /\
+             (forall d, sbal s' who d = sbal s who d - csum pc d) /\ (forall d, stake s' d = stake s d - csum amts d).
+Proof. exact redeem_pro_rata. Qed.
+Print Assumptions C10_redeem_pro_rata.
+(* REFUTED as the tree is (GetPoolCoins multiplies by 1-slashed): two equal delegators of 100, slash 1/2, the first
+   redeems all 100 remaining stake for 50 shares *)
 Theorem C10_redeem_pro_rata_refuted :
-  exists c who amts s s', (forall d, ssup s d = shares s d) /\ undelegate c who amts s = Ok s' /\ ~ pro_rata_at s amts /\
+  exists c who amts s s', (forall d, ssup s d = shares s d) /\ undelegate tree_r1 c who amts s = Ok s' /\ ~ pro_rata_at s amts /\
     stake s' 0 = 0 /\ sbal s' 0 0 = 50 /\ sbal s' 1 0 = 100.
 Proof. exact redeem_pro_rata_refuted. Qed.
 Print Assumptions C10_redeem_pro_rata_refuted.
-
-(* what does hold: while the pool was never slashed, stake and shares are 1:1 in every reachable state ... *)
+(* what holds for every variant: a never-slashed pool is 1:1 in every reachable state, and redemption from it is fair *)
 Theorem C10_unslashed_one_to_one :
   forall v c ops s, (slashed s = 0 -> forall d, stake s d = shares s d) ->
   slashed (run v c ops s) = 0 -> forall d, stake (run v c ops s) d = shares (run v c ops s) d.
 Proof. exact unslashed_one_to_one. Qed.
 Print Assumptions C10_unslashed_one_to_one.
-(* ... and redemption from such a pool is exactly pro rata *)
 Theorem C10_redeem_pro_rata_partial :
-  forall c who amts s s', inv_unslashed s -> slashed s = 0 -> (forall d, 0 <= shares s d) ->
-  undelegate c who amts s = Ok s' -> pro_rata_at s amts.
+  forall amts s, inv_unslashed s -> slashed s = 0 -> (forall d, 0 <= shares s d) -> pro_rata_at s amts.
 Proof. exact redeem_pro_rata_unslashed. Qed.
 Print Assumptions C10_redeem_pro_rata_partial.
 
-(* ---- claims: only after the unstaking period, exactly once, only by the account that undelegated.
-   REFUTED for the variant without owner comparison: a stranger is paid, the owner's claim then fails. *)
-Theorem C10_claim_owner_refuted :
-  exists s s' u, find_undel 1 (undels s) = Some u /\ u_owner u = 0 /\
-    claim (mkVariant false 0) 5 1 s = Ok s' /\ nbal s' 5 0 = nbal s 5 0 + 500 /\
-    (exists e, claim (mkVariant false 0) 0 1 s' = Err e).
-Proof. exact claim_owner_refuted. Qed.
-Print Assumptions C10_claim_owner_refuted.
-
-(* with the comparison: owner, expiry, exact amount out of the module account, record removed *)
+(* ================= claims: FULL STRENGTH FOR THE TREE AS IT IS -- only the account that undelegated, only after the
+   unstaking period, exactly the recorded amount out of the module account, the record removed ... *)
 Theorem C10_claim_only_by_owner_after_expiry :
-  forall v who id s s', v_owner_check v = true -> claim v who id s = Ok s' ->
+  forall who id s s', claim tree_variant who id s = Ok s' ->
   exists u, find_undel id (undels s) = Some u /\ u_owner u = who /\ u_expiry u <= time s /\
     (forall a d, nbal s' a d = nbal s a d + (if a =? who then csum (u_amt u) d else 0)) /\
     (forall d, modb s' d = modb s d - csum (u_amt u) d) /\
     find_undel id (undels s') = None.
-Proof. exact claim_only_by_owner_after_expiry. Qed.
+Proof. exact tree_claim_only_by_owner_after_expiry. Qed.
 Print Assumptions C10_claim_only_by_owner_after_expiry.
-
-(* expiry holds in both variants *)
-Theorem C10_claim_after_expiry :
-  forall v who id s s', claim v who id s = Ok s' ->
-  exists u, find_undel id (undels s) = Some u /\ u_expiry u <= time s /\
-            (v_owner_check v = true -> u_owner u = who) /\ all_gte (modb s) (u_amt u) = true /\ s' = pay_undel s who u.
-Proof. exact claim_spec. Qed.
-Print Assumptions C10_claim_after_expiry.
-
-(* exactly once (both variants): after a successful claim, whatever history follows, by whomever, a claim of the
-   same id is refused *)
+(* ... exactly once: after a successful claim, whatever history follows, a claim of that id by anybody is refused *)
 Theorem C10_claim_once :
-  forall v c who id s s' ops who2, ids_bounded s -> claim v who id s = Ok s' ->
-  exists e, claim v who2 id (run v c ops s') = Err e.
-Proof. exact claim_once. Qed.
+  forall c who id s s' ops who2, ids_bounded s -> claim tree_variant who id s = Ok s' ->
+  exists e, claim tree_variant who2 id (run tree_variant c ops s') = Err e.
+Proof. exact tree_claim_once. Qed.
 Print Assumptions C10_claim_once.
 Theorem C10_undelegation_ids_bounded : forall v c ops s, ids_bounded s -> ids_bounded (run v c ops s).
 Proof. exact ids_stay_bounded. Qed.
 Print Assumptions C10_undelegation_ids_bounded.
+(* the record an undelegation creates: owner = redeemer, expiry = now + unstaking period, nothing paid yet *)
+Theorem C10_undelegate_records :
+  forall v c who amts s s', undelegate v c who amts s = Ok s' ->
+  undels s' = undels s ++ [mkUndel (last s + 1) who (time s + c_unstake c) amts] /\ last s' = last s + 1 /\
+  nbal s' = nbal s /\ modb s' = modb s.
+Proof. exact undelegate_records. Qed.
+Print Assumptions C10_undelegate_records.
+(* the old variant (before 86992ce): a stranger is paid, the owner's claim then fails *)
+Theorem C10_claim_owner_refuted_before_repair :
+  exists s s' u, find_undel 1 (undels s) = Some u /\ u_owner u = 0 /\
+    claim tree_r0 5 1 s = Ok s' /\ nbal s' 5 0 = nbal s 5 0 + 500 /\ (exists e, claim tree_r0 0 1 s' = Err e).
+Proof. exact claim_owner_refuted. Qed.
+Print Assumptions C10_claim_owner_refuted_before_repair.
 
-(* ---- per-block allocation *)
-(* the remainder goes to the treasury: after every allocation the treasury record is the fee collector balance *)
+(* ================= per-block allocation *)
 Theorem C10_remainder_to_treasury :
   forall c infl s s', allocate c infl s = Ok s' -> forall d, treas s' d = fee s' d.
 Proof. exact remainder_to_treasury. Qed.
 Print Assumptions C10_remainder_to_treasury.
 
-(* signing proposer credited: REFUTED as the tree is (end rule 0).  After begin block, any transactions and end
-   block the vote store is empty ... *)
-Theorem C10_fresh_votes_wiped :
-  forall v c dt commit p possible infl txs s s1 s3,
-  v_end_rule v = 0 ->
-  begin_block c dt commit p possible infl s = Ok s1 ->
+(* signing proposer credited, FULL STRENGTH FOR THE TREE AS IT IS, in two steps: (1) a validator that signed and
+   proposed a block has, after that block, a positive signing record and is the previous proposer ... *)
+Theorem C10_signing_proposer_has_power :
+  forall c dt commit p possible infl txs s s1 s3, 1 <= c_snap c ->
+  begin_block tree_variant c dt commit p possible infl s = Ok s1 -> In (p, true) commit ->
   (forall o, In o txs -> is_tx o = true) ->
-  end_block v c (run v c txs s1) = Ok s3 ->
-  votes s3 = [].
+  end_block tree_variant c (run tree_variant c txs s1) = Ok s3 ->
+  1 <= count_votes (prev s3) (votes s3).
+Proof. exact tree_signing_proposer_has_power. Qed.
+Print Assumptions C10_signing_proposer_has_power.
+(* ... (2) and any allocation in which the previous proposer's fee cut (by its record) is worth one unit of
+   validator share in some denom pays its account a positive amount of that denom *)
+Theorem C10_signing_proposer_credited :
+  forall c infl s s' d, is_validator (prev s) = true -> In d (c_dens c) ->
+  PREC <= fee_cut c s (count_votes (prev s) (votes s)) d * Z.min (c_vfs c) PREC ->
+  allocate c infl s = Ok s' ->
+  nbal s (val_acct (prev s)) d < nbal s' (val_acct (prev s)) d.
+Proof. exact signing_proposer_credited. Qed.
+Print Assumptions C10_signing_proposer_credited.
+(* the old variant (before c0fbb8a): the vote store is empty after every block, and then nobody is credited *)
+Theorem C10_fresh_votes_wiped_before_repair :
+  forall v c dt commit p possible infl txs s s1 s3, v_end_rule v = 0 ->
+  begin_block v c dt commit p possible infl s = Ok s1 -> (forall o, In o txs -> is_tx o = true) ->
+  end_block v c (run v c txs s1) = Ok s3 -> votes s3 = [].
 Proof. exact fresh_votes_wiped. Qed.
-Print Assumptions C10_fresh_votes_wiped.
-(* ... and with an empty vote store an allocation credits nobody: fees and inflation all go to the treasury *)
+Print Assumptions C10_fresh_votes_wiped_before_repair.
 Theorem C10_nobody_credited_without_votes :
-  forall c infl s s', votes s = [] -> allocate c infl s = Ok s' ->
+  forall c infl s s', count_votes (prev s) (votes s) = 0 -> allocate c infl s = Ok s' ->
   nbal s' = nbal s /\ rew s' = rew s /\ stake s' = stake s /\
   (forall d, treas s' d = fee s d + (if d =? 0 then infl else 0)).
 Proof. exact nobody_credited_without_votes. Qed.
 Print Assumptions C10_nobody_credited_without_votes.
-(* the concrete history: five blocks, validator 0 proposes and signs every one, 4000 fees per block *)
-Theorem C10_signing_proposer_credited_refuted :
-  let s := run (mkVariant false 0) demo_cfg five_blocks demo_init in
+Theorem C10_signing_proposer_credited_refuted_before_repair :
+  let s := run tree_r0 demo_cfg (five_blocks true) demo_init in
   nbal s 100 0 = 0 /\ rew s 0 0 = 0 /\ stake s 0 = 1000 /\ treas s 0 = 20000 /\ votes s = [].
 Proof. exact signing_proposer_credited_refuted. Qed.
-Print Assumptions C10_signing_proposer_credited_refuted.
-(* with the repaired end rule the vote of every validator of the last commit survives the block (so its power is
-   positive at the next allocation), and the same history credits proposer and delegator *)
-Theorem C10_fresh_vote_survives_block :
-  forall v c dt commit p possible infl txs s s1 s3 q,
-  v_end_rule v = 1 -> 1 <= c_snap c ->
-  begin_block c dt commit p possible infl s = Ok s1 -> In q commit ->
-  (forall o, In o txs -> is_tx o = true) ->
-  end_block v c (run v c txs s1) = Ok s3 ->
-  1 <= count_votes q (votes s3).
-Proof. exact fresh_vote_survives_block. Qed.
-Print Assumptions C10_fresh_vote_survives_block.
-Theorem C10_signing_proposer_credited_when_repaired :
-  let s := run (mkVariant true 1) demo_cfg five_blocks demo_init in 0 < nbal s 100 0 /\ 0 < rew s 0 0.
-Proof. exact signing_proposer_credited_when_repaired. Qed.
-Print Assumptions C10_signing_proposer_credited_when_repaired.
+Print Assumptions C10_signing_proposer_credited_refuted_before_repair.
+
+(* "by its signing record": FULL STRENGTH with signers-only votes (pending patch): a vote at the new height exists
+   only for validators with SignedLastBlock ... *)
+Theorem C10_votes_only_for_signers :
+  forall v c dt commit p possible infl s s1 q, v_signers_only v = true ->
+  begin_block v c dt commit p possible infl s = Ok s1 ->
+  In (q, height s1) (votes s1) -> (forall w, In w (votes s) -> snd w <= height s) -> In (q, true) commit.
+Proof. exact votes_only_for_signers. Qed.
+Print Assumptions C10_votes_only_for_signers.
+(* ... REFUTED as the tree is: validator 0 proposes five blocks without signing any, gets 4 votes and is paid *)
+Theorem C10_signing_record_refuted :
+  let s := run tree_r1 demo_cfg (five_blocks false) demo_init in
+  count_votes 0 (votes s) = 4 /\ 0 < nbal s 100 0 /\ 0 < rew s 0 0.
+Proof. exact signing_record_refuted. Qed.
+Print Assumptions C10_signing_record_refuted.
+
+(* rewards reach the pool's delegators: FULL STRENGTH with the "v<id>/" prefix (pending patch): redeeming part of
+   one's stake keeps one a delegator; nobody else is ever dropped by an undelegation ... *)
+Theorem C10_partial_undelegate_keeps_delegator :
+  forall v c who amts s s', v_prefix_ok v = true -> undelegate v c who amts s = Ok s' ->
+  In who (dels s) -> (exists d, In d (c_dens c) /\ 0 < sbal s' who d) -> In who (dels s').
+Proof. exact partial_undelegate_keeps_delegator. Qed.
+Print Assumptions C10_partial_undelegate_keeps_delegator.
+Theorem C10_others_stay_delegators :
+  forall v c who amts s s' a, undelegate v c who amts s = Ok s' -> a <> who -> In a (dels s) -> In a (dels s').
+Proof. exact others_stay_delegators. Qed.
+Print Assumptions C10_others_stay_delegators.
+(* ... REFUTED as the tree is: after redeeming 300 of 1000 the holder of 700 shares is credited nothing *)
+Theorem C10_delegator_dropped_refuted :
+  let s := run tree_r1 demo_cfg partial_redeem demo_init in
+  sbal s 0 0 = 700 /\ dels s = [1] /\ rew s 0 0 = 0 /\ 0 < rew s 1 0.
+Proof. exact delegator_dropped_refuted. Qed.
+Print Assumptions C10_delegator_dropped_refuted.
 
 (* credited total never exceeds the allocation: REFUTED by per-denom banker's rounding when the stake caps sum
    to 1: 6 units distributable, validator 3 + delegator 2 + 2 *)
 Theorem C10_credited_le_allocation_refuted :
-  let s0 := run (mkVariant false 0) demo_cfg
+  let s0 := run tree_r1 demo_cfg
               [ODelegate 0 [(0, 1000); (1, 1000)]; OSetVotes [(0, 7); (0, 8); (0, 9); (0, 10)]; OFees [(1, 6)]] demo_init in
-  let s := run (mkVariant false 0) demo_cfg [OAllocate true 0] s0 in
+  let s := run tree_r1 demo_cfg [OAllocate true 0] s0 in
   fee s0 1 - treas s0 1 = 6 /\ nbal s 100 1 - nbal s0 100 1 = 3 /\ rew s 0 1 - rew s0 0 1 = 4.
 Proof. exact credited_le_allocation_refuted. Qed.
 Print Assumptions C10_credited_le_allocation_refuted.
 
-(* non-vacuity: a reachable state with stake, transferred shares, a pending undelegation and rewards satisfies the
-   hypotheses of the invariants above *)
+(* non-vacuity *)
 Example C10_nonvacuous :
-  let s := run (mkVariant true 1) demo_cfg (five_blocks ++ [OUndelegate 0 [(0, 300)]; OSendShares 0 1 [(0, 200)]]) demo_init in
+  let s := run tree_r2 demo_cfg (five_blocks true ++ [OUndelegate 0 [(0, 300)]; OSendShares 0 1 [(0, 200)]]) demo_init in
   inv_supply s /\ inv_unslashed s /\ ids_bounded s /\ shares s 0 = 700 /\ sbal s 1 0 = 200 /\ List.length (undels s) = 1%nat.
 Proof. exact busy_state_nonvacuous. Qed.
+Example C10_nonvacuous_two_slashes :
+  let s := run tree_r2 demo_cfg [OSlash HALF] (slashed_pool tree_r2) in
+  stake s 0 = 50 /\ shares s 0 = 200 /\
+  redeem_coins tree_r2 s [(0, 25)] = Ok [(0, 100)] /\ is_ok (undelegate tree_r2 demo_cfg 0 [(0, 26)] s) = false.
+Proof. exact redeem_pro_rata_after_two_slashes. Qed.
+Example C10_nonvacuous_credited :
+  (let s := run tree_r1 demo_cfg (five_blocks true) demo_init in 0 < nbal s 100 0 /\ 0 < rew s 0 0) /\
+  (let s := run tree_r2 demo_cfg (five_blocks false) demo_init in
+   count_votes 0 (votes s) = 0 /\ nbal s 100 0 = 0 /\ rew s 0 0 = 0 /\ count_votes 1 (votes s) = 4) /\
+  (let s := run tree_r2 demo_cfg partial_redeem demo_init in
+   sbal s 0 0 = 700 /\ dels s = [0; 1] /\ 0 < rew s 0 0 /\ rew s 0 0 < rew s 1 0).
+Proof. exact (conj signing_proposer_credited_nonvacuous (conj signing_record_repaired delegator_kept_when_repaired)). Qed.
